@@ -17,6 +17,9 @@ func (w *World) key(v ssa.Value) string {
 	if v == nil {
 		return "-"
 	}
+	if vv, ok := v.(*virtVal); ok {
+		return vv.k
+	}
 	if k, ok := w.keyMemo[v]; ok {
 		return k
 	}
@@ -106,6 +109,21 @@ func (w *World) key1(v ssa.Value) string {
 	case *ssa.Extract:
 		return fmt.Sprintf("%s#%d", w.key(x.Tuple), x.Index)
 	case *ssa.Call:
+		if x.Block() == nil {
+			// a call expanded from a helper: identified by callee and translated arguments
+			k := "helper-call:"
+			if f, ok := x.Call.Value.(*ssa.Function); ok {
+				k += fname(f)
+			}
+			k += "("
+			for i, a := range x.Call.Args {
+				if i > 0 {
+					k += ","
+				}
+				k += w.key(a)
+			}
+			return k + ")"
+		}
 		return fmt.Sprintf("call:%s:%s", fname(x.Parent()), x.Name())
 	case *ssa.Global:
 		return "&global:" + short(x.String())
